@@ -84,6 +84,8 @@ NearHrps == {"exx", "e", "ertq", "er", "texx", "te", "lqq", "l", "elq", "tlqq", 
 SegStrings ==
   [kind : {"seg"}, hrp : AllHrps \cup {"bc", "xx"} \cup NearHrps, case : {"lower", "upper", "mixed"}, ver : {0, 1, 2, 16, 17},
    keylen : {0, 33}, plen : {0, 1, 2, 19, 20, 21, 31, 32, 33, 40, 41}, code : {"bech", "blech"}, variant : {"plain", "m", "bad"}, pad : {0}]
+  \cup \* programs whose length is a valid one plus 256 (lengths are not bytes: no arithmetic modulo 256)
+  [kind : {"seg"}, hrp : AllHrps, case : {"lower"}, ver : {0, 1, 16}, keylen : {0, 33}, plen : {258, 276, 288, 296}, code : {"bech", "blech"}, variant : {"plain", "m"}, pad : {0}]
   \cup \* non-zero padding bits under a correct checksum, for every number of padding bits (program lengths of every residue mod 5)
   { x \in [kind : {"seg"}, hrp : AllHrps, case : {"lower"}, ver : {0, 1, 16}, keylen : {0, 33}, plen : {2, 3, 4, 19, 20, 21, 22, 32, 39, 40},
            code : {"bech", "blech"}, variant : {"plain", "m"}, pad : 1..4] :
